@@ -308,10 +308,10 @@ func verifDir() string {
 // ---- coordinator ----
 
 type propInfo struct {
-	level string
-	mode  string
-	rule  string
-	assumptions []string
+	level                 string
+	mode                  string
+	rule                  string
+	assumptions           []string
 	quickSec, thoroughSec int
 }
 
@@ -668,27 +668,27 @@ func writeEvidence(prop, tier string, seed uint64, info propInfo, s *summary, wa
 		"seed":        seed,
 		"level":       info.level,
 		"coverage": map[string]interface{}{
-			"evaluations":         s.jobs + s.images,
-			"distinct_nontrivial": len(s.fps),
-			"rule":                info.rule,
-			"samples":             s.samples,
-			"simulated_runs":      s.jobs,
-			"crash_images_recovered": s.images,
-			"statements_executed": s.stmts,
-			"runs_per_hour":       float64(s.jobs) / wall * 3600,
-			"seeds_per_hour":      float64(s.jobs) / wall * 3600,
-			"run_seeds":           seedRange,
-			"simulated_time_s":    float64(s.simMs) / 1000,
-			"faults_fired":        faults,
+			"evaluations":                       s.jobs + s.images,
+			"distinct_nontrivial":               len(s.fps),
+			"rule":                              info.rule,
+			"samples":                           s.samples,
+			"simulated_runs":                    s.jobs,
+			"crash_images_recovered":            s.images,
+			"statements_executed":               s.stmts,
+			"runs_per_hour":                     float64(s.jobs) / wall * 3600,
+			"seeds_per_hour":                    float64(s.jobs) / wall * 3600,
+			"run_seeds":                         seedRange,
+			"simulated_time_s":                  float64(s.simMs) / 1000,
+			"faults_fired":                      faults,
 			"fault_kinds_not_fired_in_this_run": notFired,
-			"reach_probes":        probes,
-			"distinct_event_logs": len(s.hashes),
-			"counters":            s.stats,
-			"runs_abandoned_precondition": s.abandoned,
-			"census":              "passed",
-			"known_findings_printed": known,
-			"real_components":     []string{"sql scanner+parser", "engine executor and Session", "storage: catalog, B+ tree, page codec, LRU cache, WAL writer/reader, InitStorage recovery", "kernel VFS on tmpfs"},
-			"stubbed_components":  []string{"100 ms ticker (virtual clock, ticks delivered by the simulator)", "process death (crash image synthesised from hook-built shadow files)", "stdout", "tty / signal handler / main() of both commands (never executed)"},
+			"reach_probes":                      probes,
+			"distinct_event_logs":               len(s.hashes),
+			"counters":                          s.stats,
+			"runs_abandoned_precondition":       s.abandoned,
+			"census":                            "passed",
+			"known_findings_printed":            known,
+			"real_components":                   []string{"sql scanner+parser", "engine executor and Session", "storage: catalog, B+ tree, page codec, LRU cache, WAL writer/reader, InitStorage recovery", "kernel VFS on tmpfs"},
+			"stubbed_components":                []string{"100 ms ticker (virtual clock, ticks delivered by the simulator)", "process death (crash image synthesised from hook-built shadow files)", "stdout", "tty / signal handler / main() of both commands (never executed)"},
 		},
 		"assumptions": append(append([]string(nil), commonAssume...), info.assumptions...),
 		"wall_s":      wall,
@@ -703,15 +703,15 @@ func writeEvidence(prop, tier string, seed uint64, info propInfo, s *summary, wa
 // ---- replay files ----
 
 type ReplayFile struct {
-	Property  string          `json:"property"`
-	Signature string          `json:"signature"`
-	Oracle    string          `json:"oracle"`
+	Property  string            `json:"property"`
+	Signature string            `json:"signature"`
+	Oracle    string            `json:"oracle"`
 	Features  map[string]string `json:"features"`
-	Detail    string          `json:"detail"`
-	Seed      uint64          `json:"seed"`
-	Mode      string          `json:"mode,omitempty"`
-	EventHash string          `json:"event_hash"`
-	Plan      *core.Plan      `json:"plan"`
+	Detail    string            `json:"detail"`
+	Seed      uint64            `json:"seed"`
+	Mode      string            `json:"mode,omitempty"`
+	EventHash string            `json:"event_hash"`
+	Plan      *core.Plan        `json:"plan"`
 }
 
 func planHashBytes(b []byte) string {
